@@ -103,6 +103,40 @@ def make_replay(pid, h, res):
     return path, reproduced
 
 
+def fallback_search(pid, h, res):
+    """The contract could not be attached (function/loop structure changed -> extraction failure).  A
+    bounded stand-in: run the native differential battery of the harness' replay program against the
+    current code.  Returns a replay path if the real code violates the specification on a concrete
+    input, else None (the harness stays UNDECIDED)."""
+    if not h.replay:
+        return None
+    work, exe, cmdline = build_native(h.replay[0], h.defines)
+    if exe is None:
+        return None
+    try:
+        rc, out = run_native(exe, h.replay[1], ['--search'])
+    finally:
+        shutil.rmtree(work, ignore_errors=True)
+    if rc != 1:
+        return None
+    os.makedirs(os.path.join(VERIF, 'replays'), exist_ok=True)
+    path = os.path.join(VERIF, 'replays', '%s-%s-extraction-fallback.json' % (pid, h.name))
+    mo = re.match(r'REPRODUCED (.*?) ::', out or '')
+    rec = {'property': pid, 'harness': h.name, 'function': h.enforce,
+           'failed_obligation': 'bounded-fallback.native-differential-search',
+           'obligation_class': 'bounded stand-in (contract could not be attached)',
+           'verifier_output': {'status': 'UNDECIDED', 'reason': res.get('reason', '')},
+           'note': 'The contract anchors no longer match the function (renamed / restructured loops), so the '
+                   'deductive check is undecided; the bounded native battery of the replay program found a concrete '
+                   'input on which the real code violates the specification.',
+           'replay': {'native_build': cmdline, 'mode': h.replay[1], 'args': ['--search'], 'rc': rc, 'output': out,
+                      'search_args': mo.group(1).split() if mo else None},
+           'reproduced': True, 'witness_source': 'native-search (bounded fallback)',
+           'replay_cmd': './check %s --replay %s' % (pid, path)}
+    json.dump(rec, open(path, 'w'), indent=1)
+    return path
+
+
 def replay_file(path):
     rec = json.load(open(path))
     sys.path.insert(0, os.path.join(VERIF, 'harness'))
